@@ -82,6 +82,8 @@ async fn timeout_fut(
     fut: impl Future<Output = ()>,
     timeout: Option<Duration>,
 ) -> crate::DynResult<()> {
+    #[cfg(feature = "verif")]
+    use crate::verif::timer_shim as futures_timer;
     if let Some(timeout) = timeout {
         futures::select! {
             res = fut.map(Ok).fuse() => res,
